@@ -490,6 +490,10 @@ def verify_kernel(ctx, prog, name):
                     pass
                 elif not (kind(sz) == "bin" and sz[1] == "*" and {path(sz[2]) or int_val(sz[2]), path(sz[3]) or int_val(sz[3])} == {num, N}):
                     raise KErr("memcpy length %s, expected %s * %d" % (render(sz), num, N))
+                if kind(sz) == "bin":
+                    ib = ctx.prog.int_bits(sz[-1]) if isinstance(sz[-1], str) else None
+                    if ib is not None and ib[0] < 64:
+                        raise KErr("memcpy length `%s` is computed in a %d-bit type: it wraps for large element counts and the copy is silently short" % (render(sz), ib[0]))
                 why = "memcpy of num_elm*%d bytes" % N
             ctx.holds("F8", key, f.where(node[-3]), why)
         except KErr as e:
